@@ -3,19 +3,14 @@
   on every record whose text fields contain no separator (C09).
 -/
 import Robotools.Model.Parse
+import Robotools.Proofs.GeometryLemmas
 namespace Robotools
 
-
-theorem natDigits_eq (n : Nat) : natDigits n = Nat.toDigits 10 n := by
-  simp [natDigits, Nat.toList_repr]
 
 theorem natDigits_isDigit (n : Nat) : ∀ c ∈ natDigits n, c.isDigit = true := by
   intro c hc
   rw [natDigits_eq] at hc
   exact Nat.isDigit_of_mem_toDigits (by decide) (by decide) hc
-
-theorem natDigits_ne_nil (n : Nat) : natDigits n ≠ [] := by
-  rw [natDigits_eq]; exact Nat.toDigits_ne_nil
 
 theorem parseNat_natDigits (n : Nat) : parseNat (natDigits n) = some n := by
   unfold parseNat
